@@ -413,16 +413,17 @@ macro_rules! pair_sim {
             fn expect_next(src: &$Src, m: &M) -> ExpectNext {
                 catch(|| {
                     if m.def == 0 {
-                        let ex = <$EA as Ex>::from_model(m.ex);
-                        let mut lx: Lexer<'_, $A> =
-                            if m.prefix { Lexer::partial_with_extras(src, ex) } else { Lexer::with_extras(src, ex) };
+                        // built through the OTHER pair of constructors than the handles under test
+                        // (new / new_partial + assignment to the public extras field), so that a constructor
+                        // that loses the mode or the extras shows up as a disagreement
+                        let mut lx: Lexer<'_, $A> = if m.prefix { Lexer::new_partial(src) } else { Lexer::new(src) };
+                        lx.extras = <$EA as Ex>::from_model(m.ex);
                         lx.bump(m.end);
                         let item = lx.next();
                         (format!("{:?}", item), (lx.span().start, lx.span().end), lx.extras.to_model())
                     } else {
-                        let ex = <$EB as Ex>::from_model(m.ex);
-                        let mut lx: Lexer<'_, $B> =
-                            if m.prefix { Lexer::partial_with_extras(src, ex) } else { Lexer::with_extras(src, ex) };
+                        let mut lx: Lexer<'_, $B> = if m.prefix { Lexer::new_partial(src) } else { Lexer::new(src) };
+                        lx.extras = <$EB as Ex>::from_model(m.ex);
                         lx.bump(m.end);
                         let item = lx.next();
                         (format!("{:?}", item), (lx.span().start, lx.span().end), lx.extras.to_model())
@@ -522,6 +523,13 @@ macro_rules! pair_sim {
                                             "after a failed bump, slice() returned offset {} length {} of a {}-byte source (span() = {}..{})",
                                             off as isize, n, len, span.0, span.1));
                                     }
+                                    if <$Src as SrcKind>::IS_STR && !(is_boundary(bytes, true, off) && is_boundary(bytes, true, off + n)) {
+                                        // a `&str` that splits a code point is not a slice of the source safe code could ever hold:
+                                        // the failed bump has in effect moved the end to a position bump must refuse
+                                        return Err(violation!("B2-slice", step, opkind, "slice-splits-code-point",
+                                            "after a bump that panicked, slice() returned the str slice {}..{} of the source, which splits a multi-byte character (span() = {}..{}): the refused position was stored",
+                                            off, off + n, span.0, span.1));
+                                    }
                                     stats.hit("b2_slice_in_range");
                                 }
                             }
@@ -537,6 +545,11 @@ macro_rules! pair_sim {
                                     return Err(violation!("B2-remainder", step, opkind, "remainder",
                                         "after a failed bump, remainder() returned offset {} length {} of a {}-byte source (span() = {}..{})",
                                         off as isize, n, len, span.0, span.1));
+                                }
+                                if <$Src as SrcKind>::IS_STR && !is_boundary(bytes, true, off) {
+                                    return Err(violation!("B2-remainder", step, opkind, "remainder-splits-code-point",
+                                        "after a bump that panicked, remainder() starts at {} inside a multi-byte character (span() = {}..{}): the refused position was stored",
+                                        off, span.0, span.1));
                                 }
                                 stats.hit("b2_remainder_in_range");
                             }
